@@ -502,6 +502,136 @@ def cli_sample(ctx, corpus, rng, count):
     return done, mismatch
 
 
+# --------------------------------------------------------------------------- multi-document streams through the tool
+def model_lines(e, c, sep):
+    """The lines one document contributes (spec: DocLines without the prefix): the printed text of every position the
+    mirrored search yields, in yield order, each text once - all from what TLC emitted (mir, and the texts of T1)."""
+    resmap = {r["i"]: r for r in e["res"]}
+    out = []
+    for i in c["mir"]:
+        t = resmap[i]["sl" if sep == "/" else "dot"]
+        if t not in out:
+            out.append(t)
+    return out
+
+
+def stream_sample(ctx, corpus, rng, count):
+    """yaml-paths main() on streams of 2-3 documents (file, STDIN, two files): per document exactly the lines of that
+    document's own search (spec: StreamLines - nothing is carried from one document to the next)."""
+    from harness import absdoc, pathssearchobs as pso
+    index = collections.defaultdict(list)
+    for e in corpus:
+        for c in e["cases"]:
+            if c["info"] or c["cls"] or any(i > len(e["doc"]) for i in c["mir"]):
+                continue
+            for expr in list(c["x"]) + list(c.get("spell", [])):
+                index[(c["o"], expr)].append((e, c))
+    keys = sorted(k for k, v in index.items() if any(c["mir"] for _, c in v))
+    d = ctx.path("streams")
+    os.makedirs(d, exist_ok=True)
+    stats = collections.Counter()
+    viol = []
+    for n in range(count if keys else 0):
+        o, expr = keys[rng.randrange(len(keys))]
+        group = index[(o, expr)]
+        hot = [g for g in group if g[1]["mir"]]
+        cold = [g for g in group if not g[1]["mir"]]
+        a = rng.choice(hot)
+        kind = ("same", "shared", "later", "gap")[n % 4]
+        if kind == "shared" and len(hot) < 2:
+            kind = "same"
+        if kind == "later" and not cold:
+            kind = "gap"
+        if kind == "same":
+            docs = [a, a]
+        elif kind == "shared":
+            sep0 = "/"
+            mine = set(model_lines(a[0], a[1], sep0))
+            some = hot if len(hot) <= 40 else rng.sample(hot, 40)
+            sharing = [g for g in some if g is not a and mine & set(model_lines(g[0], g[1], sep0))]
+            docs = [a, rng.choice(sharing or hot), a][:rng.choice([2, 3])]
+        elif kind == "later":
+            docs = [rng.choice(cold), a]
+        else:
+            docs = [a, None, rng.choice(hot)]
+        sep = rng.choice([".", "/"])
+        texts = []
+        skip = False
+        for g in docs:
+            if g is None:
+                texts.append("---\n")
+                continue
+            t = doc_text(g[0]["doc"], g[0].get("sx"), "block", False)
+            if pso.has_side(g[0].get("sx")) and pso.merge_unfilled(absdoc.load(t)):
+                skip = True
+            texts.append(t)
+        if skip:
+            continue
+        stream = "".join(texts)
+        flags = [f for f in pso.flags(o, sep) if f not in ("--nofile", "--nostdin")]
+        how = ("file", "stdin", "files")[n % 3]
+        f1 = os.path.join(d, "s%d.yaml" % (n % 7))
+        with open(f1, "w") as fh:
+            fh.write(stream)
+        per_doc = [[] if g is None else model_lines(g[0], g[1], sep) for g in docs]
+        if how == "stdin":
+            code, lines, err = pso.run_main(["--search", expr] + flags + ["-"], stdin_text=stream)
+            names = [("STDIN", per_doc)]
+        elif how == "files":
+            f2 = os.path.join(d, "t%d.yaml" % (n % 7))
+            with open(f2, "w") as fh:
+                fh.write(texts[-1])
+            code, lines, err = pso.run_main(["--search", expr, "--nostdin"] + flags + [f1, f2])
+            names = [(f1, per_doc), (f2, per_doc[-1:])]
+        else:
+            code, lines, err = pso.run_main(["--search", expr, "--nostdin"] + flags + [f1])
+            names = [(f1, per_doc)]
+        want = ["%s/%d: %s" % (name, k, p) for name, pd in names for k, ps in enumerate(pd) for p in ps]
+        stats["streams"] += 1
+        stats["stream_documents"] += sum(len(pd) for _, pd in names)
+        stats["streams_" + kind] += 1
+        stats["streams_by_" + how] += 1
+        if code == 0 and lines == want:
+            continue
+        if code == 0 and sorted(lines) == sorted(want):
+            stats["stream_order_differs"] += 1        # the statement does not order the report
+            continue
+        missing = [l for l in want if l not in lines]
+        extra = [l for l in lines if l not in want]
+        first_names = {"%s/0:" % name for name, _ in names}
+        if code != 0:
+            sig = "stream:exit-code"
+        elif missing:
+            sig = "stream:complete:%s-document" % ("first" if all(l.split(" ")[0] in first_names for l in missing) else "later")
+        elif extra:
+            sig = "stream:sound"
+        else:
+            sig = "stream:repeat"
+        viol.append((sig, "stream (%s, %s, %s) search %s %s: exit %s, printed %s, expected per document %s%s" % (
+            kind, how, repr(stream), expr, " ".join(flags), code, lines, want, (" stderr " + err[:200]) if err else ""),
+            {"kind": "stream", "stream": stream, "expr": expr, "flags": flags, "how": how, "want": want,
+             "names": [name for name, _ in names], "last": texts[-1]}))
+    return viol, stats
+
+
+def replay_stream(rp):
+    from harness import pathssearchobs as pso
+    d = os.path.dirname(rp["names"][0]) if rp["how"] != "stdin" else None
+    if d:
+        os.makedirs(d, exist_ok=True)
+        with open(rp["names"][0], "w") as fh:
+            fh.write(rp["stream"])
+        if rp["how"] == "files":
+            with open(rp["names"][1], "w") as fh:
+                fh.write(rp["last"])
+        code, lines, _ = pso.run_main(["--search", rp["expr"], "--nostdin"] + rp["flags"] + rp["names"])
+    else:
+        code, lines, _ = pso.run_main(["--search", rp["expr"]] + rp["flags"] + ["-"], stdin_text=rp["stream"])
+    if code == 0 and sorted(lines) == sorted(rp["want"]):
+        return []
+    return ["stream :: exit %s, printed %s, expected %s" % (code, lines, rp["want"])]
+
+
 # --------------------------------------------------------------------------- binding self-test
 def selftest(corpus):
     """Corrupt one field of recorded/expected data and require the judge to object."""
@@ -590,6 +720,9 @@ def run(ctx):
     if cli_bad:
         ctx.violation("cli:differs-from-direct-call", "%d of %d sampled yaml-paths runs print other paths than search_for_paths yields" % (cli_bad, cli_done),
                       {"kind": "cli"})
+    sviol, sstats = stream_sample(ctx, corpus, rng, 180 if ctx.quick else 1500)
+    for sig, desc, rp in sviol:
+        ctx.violation(sig, desc, rp)
     tried, caught = selftest(corpus)
     if tried == 0 or caught != tried:
         raise core.MachineryError("binding self-test: %d of %d corrupted records were rejected" % (caught, tried))
@@ -615,6 +748,8 @@ def run(ctx):
                                  "alias options on keys/values, own-value completeness; merge keys and anchored keys are outside the YData model"},
         "scalar_documents_silent": scalar_silent,
         "cli_sample": {"runs": cli_done, "differing": cli_bad},
+        "multi_document_streams": dict(sstats, judged_by="spec StreamLines: per document the lines of its own search (TLC's mirrored results and "
+                                                        "printed texts), prefixed <name>/<index>; nothing carried between documents"),
         "binding_selftest": {"corrupted_records": tried, "rejected": caught},
         "pinned_designs_rejected_by_tlc": [c.replace(".cfg", "") for c in pins],
         "documents_changed_by_search": tot["documents_changed"],
@@ -636,7 +771,9 @@ def replay(path):
     with open(path) as fh:
         rp = json.load(fh)["replay"]
     out = []
-    if rp.get("kind") == "curated":
+    if rp.get("kind") == "stream":
+        out = replay_stream(rp)
+    elif rp.get("kind") == "curated":
         data = absdoc.load(rp["text"])
         problems, _ = judge_curated(rp["name"], data, pso.Resolver(data), _first_places(data), rp["expr"], rp["o"], rp["sep"])
         out = ["%s :: %s" % p for p in problems]
